@@ -465,7 +465,7 @@ def run(ctx):
     rng = ctx.rng
     tap = probes.CallTap({"assembler": BranchTreeAssembler.__call__,
                           "resample": BranchIsometricResampler.resample})
-    geoms = ["growth", "gauss", "far", "big", "tiny", "coincident", "axis", "axis"]
+    geoms = ["growth", "plane", "gauss", "far", "big", "tiny", "coincident", "axis", "axis"]
     with tap:
         for k in range(ctx.scale(1700, 34000)):
             u = k % 10
